@@ -24,7 +24,7 @@ THEOREMS = {
                             "bufinv_newNode", "bufinv_incRef", "bufinv_decRef_handle", "bufinv_addEdge", "bufinv_delEdge", "bufinv_upgradeDrop", "bufinv_collectCycles",
                             "onePass_frees_garbage", "collectCycles_terminates", "onePass_progress", "collect_dtor_once"]]
            + ["SodiumVerif.GcScript." + n for n in ["script_complete", "handles_exact", "no_garbage_after_collect", "drop_all_collect_frees_all"]]
-           + ["SodiumVerif.Struct." + n for n in ["run_reachable", "struct_gc_complete", "leakcheck_frees_all", "leakcheck_count_zero", "struct_oof"]],
+           + ["SodiumVerif.Struct." + n for n in ["run_reachable", "struct_gc_complete", "leakcheck_frees_all", "leakcheck_count_zero", "struct_oof", "d6_witness"]],
     "C09": [S + "fireTable_unique", S + "fire_rename'", S + "fireOf_rename'", S + "val_rename'", S + "val_run_rename'", S + "fireTrace_rename'", S + "WellRanked.rename'",
             S + "solution_extends", S + "fireTable_least", S + "gc_transparent", "SodiumVerif.Sched.transaction_result_unique", "SodiumVerif.Sched.sched_result_unique",
             G + "collect_sound_total"],
